@@ -770,6 +770,9 @@ func runC14(r *Run) {
 	if r.Want("openls") {
 		c14OpenLockstep(r)
 	}
+	if r.NumViolations() == 0 {
+		c14ExpiredUnary(r)
+	}
 	if r.Want("failedopen") && r.NumViolations() == 0 {
 		c14Dedicated(r, "failedopen")
 	}
